@@ -125,7 +125,7 @@ struct LenpHarness : Harness {
             { Json s = Json::arr(); int n = r.chance(1, 2) ? 0 : (int)r.range(1, 8);
               for (int q = 0; q < n; ++q) { switch (r.below(6)) { case 0: s.push(0); break; case 1: s.push(-EINTR); break; case 2: s.push(-EAGAIN); break; default: s.push((long long)r.range(1, 5)); } }
               o["ks"] = s; }
-            if (r.chance(1, 8)) { Json e = Json::arr(); e.push((long long)r.range(0, len + 4)); e.push(HARD_ERRORS[r.below(N_HARD_ERRORS)]); o["kerr"] = e; }
+            if (r.chance(1, 8)) { Json e = Json::arr(); e.push((long long)r.range(0, len + 4)); { size_t hi = (size_t)r.below(N_HARD_ERRORS + 2); e.push(hi < N_HARD_ERRORS ? HARD_ERRORS[hi] : ENODATA); } o["kerr"] = e; }
             if (!enc && r.chance(1, 5)) { Json ij = Json::arr(); ij.push((long long)r.below(12)); ij.push((long long)r.below(6)); ij.push((long long)r.below(128)); o["dintrude"] = ij; }
             if (enc && r.chance(1, 5)) { Json ij = Json::arr(); ij.push((long long)r.below(4)); ij.push((long long)r.below(4)); ij.push((long long)r.below(6)); ij.push((long long)r.range(1, 40)); o["intrude"] = ij; }
             ops.push(o);
